@@ -150,4 +150,71 @@ theorem chunkUnencoded_fold : ∀ (pages : List (List (List Nat))) (acc : Nat),
   | [], acc => by simp
   | p :: rest, acc => by rw [List.foldl_cons, chunkUnencoded_fold rest]; simp; omega
 
+/-! ## one page of a column as a level stream: null count, row count, value count and histograms together -/
+
+/-- one entry of a column's level stream (Dremel triple): definition level, repetition level, the value if present -/
+structure Entry (α : Type) where
+  dfn : Nat
+  rep : Nat
+  val : Option α
+
+/-- SPEC (Dremel encoding, what the shredder produces — C03 `shred_levels_wf`): levels within the column's
+    maxima and a value is present exactly at the maximal definition level -/
+def Entry.WF {α} (maxDef maxRep : Nat) (e : Entry α) : Prop :=
+  e.dfn ≤ maxDef ∧ e.rep ≤ maxRep ∧ (e.val = none ↔ e.dfn ≠ maxDef)
+
+structure PageLevelStats where
+  numValues : Nat
+  numNulls : Nat
+  numRows : Nat
+  defHist : List Nat
+  repHist : List Nat
+  unencoded : Nat
+deriving DecidableEq, Repr
+
+/-- MIRROR level.go:11-17 `countLevelsEqual` / `countLevelsNotEqual` -/
+def countLevelsEqual (levels : List Nat) (v : Nat) : Nat := levels.count v
+def countLevelsNotEqual (levels : List Nat) (v : Nat) : Nat := levels.length - countLevelsEqual levels v
+
+/-- MIRROR of what the writer records for one page of a nested column (writer.go `writePage`/`recordPageStats`):
+    `NumValues` = number of level entries, `NumNulls` = `countLevelsNotEqual(def, maxDef)` (page_optional.go:34,
+    page_repeated.go:38), `NumRows` = `countLevelsEqual(rep, 0)` (page_repeated.go:33), the two level histograms
+    (writer_statistics.go:44-61) and the unencoded byte-array size of the values present (writer_statistics.go:11-29) -/
+def pageLevelStats (maxDef maxRep : Nat) (page : List (Entry (List Nat))) : PageLevelStats :=
+  { numValues := page.length
+    numNulls := countLevelsNotEqual (page.map (·.dfn)) maxDef
+    numRows := countLevelsEqual (page.map (·.rep)) 0
+    defHist := pageHist maxDef (page.map (·.dfn))
+    repHist := pageHist maxRep (page.map (·.rep))
+    unencoded := pageUnencoded (page.filterMap (·.val)) }
+
+theorem count_dfn_eq_present {α} (maxDef maxRep : Nat) : ∀ (page : List (Entry α)), (∀ e ∈ page, e.WF maxDef maxRep) →
+    (page.map (·.dfn)).count maxDef = (page.filterMap (·.val)).length ∧
+    (page.map (·.dfn)).count maxDef + page.countP (fun e => e.val.isNone) = page.length
+  | [], _ => by simp
+  | e :: rest, h => by
+    have ih := count_dfn_eq_present maxDef maxRep rest (fun x hx => h x (List.mem_cons_of_mem _ hx))
+    have hw := h e (by simp)
+    obtain ⟨_, _, hv⟩ := hw
+    cases hval : e.val with
+    | none =>
+      have hne : e.dfn ≠ maxDef := hv.mp hval
+      have hb : (e.dfn == maxDef) = false := by simp [hne]
+      simp only [List.map_cons, List.count_cons, hb, List.filterMap_cons, hval, List.countP_cons, Option.isNone_none,
+        List.length_cons]
+      constructor
+      · simpa using ih.1
+      · have := ih.2; simp only [Bool.false_eq_true, if_false, if_true] ; omega
+    | some x =>
+      have heq : e.dfn = maxDef := by
+        by_cases hc : e.dfn = maxDef
+        · exact hc
+        · have := hv.mpr hc; rw [hval] at this; simp at this
+      have hb : (e.dfn == maxDef) = true := by simp [heq]
+      simp only [List.map_cons, List.count_cons, hb, List.filterMap_cons, hval, List.countP_cons, Option.isNone_some,
+        List.length_cons]
+      constructor
+      · simpa using ih.1
+      · have := ih.2; simp only [Bool.false_eq_true, if_false, if_true]; omega
+
 end PqModel.LevelStats
